@@ -142,6 +142,9 @@ UNITS = [
 from contracts.adapt_arms import dataclass_unit  # noqa: E402
 UNITS.append(dataclass_unit("C06"))
 
+from contracts.class_type import class_type_unit  # noqa: E402
+UNITS.append(class_type_unit("C06"))
+
 VERIFIED_CALLEES = ("check_required",)
 LEVEL = "other"
 TECHNIQUE = "contract-based deductive verification of validate's nested check functions (VCs from the real AST, recursion by contract) + bounded run-time contract checking: one foreign key inserted / one required key removed at every tree position"
